@@ -64,6 +64,19 @@ func (c *VerifConn) Drain() (bodies [][]byte, closed bool) {
 	}
 }
 
+// DrainOne takes at most one body off the channel (what the HTTP handler does per loop iteration).
+func (c *VerifConn) DrainOne() (bodies [][]byte, closed bool) {
+	select {
+	case b, ok := <-c.c.ch:
+		if !ok {
+			return nil, true
+		}
+		return [][]byte{b}, false
+	default:
+		return nil, false
+	}
+}
+
 // Buffered is the number of bodies waiting on the connection's channel.
 func (c *VerifConn) Buffered() int { return len(c.c.ch) }
 
